@@ -370,8 +370,6 @@ structure SecBlock where
   addlProt : Bytes
   /-- per target index: the result list (type code, decoded message) -/
   results : List (List (Nat × Msg))
-  /-- the optional parameters field is present (context flag bit 0) -/
-  hasParams : Bool := true
   deriving Repr, Inhabited
 
 def hasDup : List Nat → Bool
@@ -384,21 +382,11 @@ inductive Verdict where
   | raised
   deriving Repr, DecidableEq, Inhabited
 
-/-- Second loop of `check_secblk`. An empty result array dissects to `results = None`, over which
-    the loop raises `TypeError`. -/
-def checkResults : List (List (Nat × Msg)) → Verdict
-  | [] => .ok
-  | r :: rs =>
-    if r.isEmpty then .raised
-    else if hasDup (r.map (·.1)) then .failed 15
-    else checkResults rs
-
-/-- `check_secblk` (as used by `verify_bib`: `False` ⇒ FAILED_SEC). With the parameters field absent
-    `payload.parameters` is `None` and the first loop raises. -/
+/-- `check_secblk` (as used by `verify_bib`: `False` ⇒ FAILED_SEC): duplicate parameter ids or
+    duplicate result ids within one target's results. An absent parameters field and an empty result
+    array (both dissect to `None`) are read as empty lists. -/
 def checkSecblk (sb : SecBlock) : Verdict :=
-  if !sb.hasParams then .raised
-  else if hasDup sb.paramIds then .failed 15
-  else checkResults sb.results
+  if hasDup sb.paramIds || sb.results.any (fun r => hasDup (r.map (·.1))) then .failed 15 else .ok
 
 def ctxFor (primary : Primary) (blocks : List Canonical) (sb : SecBlock) (tgt : Canonical) : AadCtx :=
   ⟨sb.ssrc, sb.scope, primary, blocks, sb.blk, tgt, sb.addlProt⟩
